@@ -173,6 +173,7 @@ class C17(Check):
     thorough_examples = 1500
     chunk = 150
     rule = (
+        "[drawn in addition since rounds 13-15: parameters named cls / self / context; bound methods of handler objects] "
         "cases: (a) enumerated: every signature of <= 2 (quick) / <= 3 (thorough) parameters over positional-or-keyword / keyword-only x with / "
         "without defaults (JSON values, non-JSON-serialisable sentinel objects and the library's own UNSET), x context parameter designations (none, by name at each positional position, keyword-only, view constructor; also next to a client parameter whose name is contained in the context name) x "
         "exclusion predicate off / by name prefix / by missing annotation (an extra defaulted 'dep_' parameter, excluded in the extractor and in the validator) x function / view (own methods; a static method inherited from a base view) "
